@@ -135,9 +135,41 @@ theorem empty_cache_healthy (cfg : Cfg) (cache : Path) (fs : FS)
     (hbelow : ∀ q, cache <+: q → q ≠ cache → fs.get q = none) : HealthyIndex cfg cache fs :=
   Refine.healthy_of_empty_cache cfg cache fs hanc hbelow
 
-/-- Non-vacuity: the hypotheses are satisfiable by a concrete non-trivial history. -/
-example : ∃ (pre post : List (Nat × Bytes)), pre ≠ [] ∧ post ≠ [] ∧
-    ∀ s ∈ post, s.2 ≠ ([1] : Bytes) :=
-  ⟨[(0, [1])], [(2, [2])], by simp, by simp, by simp⟩
+/-- Non-vacuity of `lookup_last_wins_cacache`, on a two-record history: the bucket that holds the
+record of an insert of the key "key" for data `d1` followed by the record of an insert of the same
+key for data `d2` (integrities computed by the library, explicit times 1 and 2; any hash function,
+any data) satisfies its hypotheses, and the lookup returns exactly the SECOND entry. -/
+example (cfg : Cfg) (a : Algo) (d1 d2 : Bytes) :
+    (codec cfg).find
+      ((codec cfg).appendAll []
+        [mkRec [107, 101, 121] { sri := some (Sri.compute cfg.H a d1), time := some 1 } 1,
+         mkRec [107, 101, 121] { sri := some (Sri.compute cfg.H a d2), time := some 2 } 2])
+      [107, 101, 121] =
+    some { key := [107, 101, 121], sri := Sri.compute cfg.H a d2, time := 2, size := 0,
+           metadata := .null, raw := none } := by
+  have hwf : ∀ (d : Bytes) (t : Nat), t ≤ 2 →
+      (mkRec [107, 101, 121] { sri := some (Sri.compute cfg.H a d), time := some t } t).WF := by
+    intro d t ht
+    have ht' : t ≤ timeMax := by rw [timeMax_eq]; omega
+    refine mkRec_wf _ _ t ⟨by decide, ?_, by simp, ?_, by simp⟩ ht'
+    · intro t' h; cases h; exact ht'
+    · intro s h; cases h; exact Sri.compute_wf cfg.H a d
+  have h := lookup_last_wins_cacache cfg []
+    [mkRec [107, 101, 121] { sri := some (Sri.compute cfg.H a d1), time := some 1 } 1] []
+    (mkRec [107, 101, 121] { sri := some (Sri.compute cfg.H a d2), time := some 2 } 2)
+    (by
+      intro x hx
+      simp only [List.cons_append, List.nil_append, List.mem_cons, List.not_mem_nil, or_false] at hx
+      rcases hx with rfl | rfl
+      · exact hwf d1 1 (by omega)
+      · exact hwf d2 2 (by omega))
+    (by simp)
+  have hcls : Rec.cls (mkRec [107, 101, 121]
+      { sri := some (Sri.compute cfg.H a d2), time := some 2 } 2) =
+      .live { key := [107, 101, 121], sri := Sri.compute cfg.H a d2, time := 2, size := 0,
+              metadata := .null, raw := none } := by
+    simp [Rec.cls, mkRec, Sri.parse_print_compute]
+  rw [hcls] at h
+  exact h
 
 end Cacache.C05
